@@ -56,7 +56,21 @@ def my_est(a):
     return float(np.mean(a ** 2))
 
 
+def my_est2(a):
+    return float(np.max(a) - np.min(a))
+
+
+def my_est3(a):
+    return float(a[1, 0, -1] * 3.0)
+
+
 CUSTOM = {'cust_a': cust_a, 'cust_b': cust_b, 'cust_t': cust_t}
+
+
+def custom_est_names(spec):
+    if not spec['custom_est']:
+        return []
+    return ['my_est', 'my_est2', 'my_est3'] if spec['seed'] % 2 else ['my_est']
 
 
 def cases(tier, sd):
@@ -132,6 +146,9 @@ def run_scenario(spec, n):
         kw['center'] = tuple(spec['center'])
     grid0 = [fd.xarray.copy(), fd.cartesian_coords.copy(), fd.r.copy()]
     est = list(spec['est']) + ([{'my_est': my_est}] if spec['custom_est'] else [])
+    if spec['custom_est'] and spec['seed'] % 2:
+        # several custom estimators, in one dict and in a dict of their own
+        est = list(spec['est']) + [{'my_est': my_est, 'my_est2': my_est2}, {'my_est3': my_est3}]
     names = spec['names']
     modes = {'single': [names]}
     if spec['cuts']:
@@ -174,6 +191,15 @@ def run_scenario(spec, n):
                                   verbose=False, **kw)
             cur = atime.over_time(cur, fd, vars=[], estimates=list(est), verbose=False, **kw)
         tables['catchup'] = cur
+    # a later call whose list repeats names that are already columns, two of
+    # them in a row (an input column and a computed one): nothing is recomputed
+    # from defaults, nothing overwritten
+    inputs_present = [k for k in ('alpha', 'Tdown4', 'dtalpha') if k in tables['single']]
+    rep = inputs_present[:2] + [names[0]] + inputs_present[2:] + ['gdet']
+    with common.Quiet():
+        again = atime.over_time(tables['single'], fd, vars=var_list([r_ for r_ in rep if r_ not in CUSTOM]),
+                                estimates=[], verbose=False, **kw)
+    tables['_repeat'] = (again, [r_ for r_ in rep if r_ not in CUSTOM])
     # one more call on the finished table: ONE dict holding an existing column
     # name (under another function) and a brand-new name
     exist = spec['names'][0]
@@ -210,13 +236,18 @@ def diffs(spec, n):
         hard.append(("over_time modifies the caller's table or the shared grid object", {}))
     tk = spec['tkey']
     app, exist = tables.pop('_append')
+    again, rep = tables.pop('_repeat')
+    for nm in rep:
+        if nm in tables['single'] and not same(np.asarray(again[nm]), np.asarray(tables['single'][nm])):
+            hard.append(("a later call that lists an existing column changed it", {"column": nm, "vars": rep}))
+            break
     S0 = tables['single']
     if 'brand_new' not in app:
         hard.append(("later call with a mixed custom dict did not add the new variable", {}))
     elif not same(np.asarray(app[exist]), np.asarray(S0[exist])):
         hard.append(("later call re-evaluated / overwrote an existing column", {"column": exist}))
     else:
-        for en in list(spec['est']) + (['my_est'] if spec['custom_est'] else []):
+        for en in list(spec['est']) + custom_est_names(spec):
             col = f"{exist}_{en}"
             if col in S0 and not same(np.asarray(app[col]), np.asarray(S0[col])):
                 hard.append(("later call changed an existing estimate column", {"column": col}))
@@ -244,7 +275,7 @@ def diffs(spec, n):
                 out.append((f"{nm} vs per-step oracle ({mode})", float(np.abs(a - b).max()),
                             float(np.abs(b).max())))
         # estimates: every 3-D column must have every estimate, correctly
-        names_est = list(spec['est']) + (['my_est'] if spec['custom_est'] else [])
+        names_est = list(spec['est']) + custom_est_names(spec)
         for key in list(T.keys()):
             v0 = np.asarray(T[key][0])
             if v0.ndim != 3:
@@ -254,7 +285,7 @@ def diffs(spec, n):
                 if col not in T:
                     hard.append((f"estimate column missing ({mode})", {"column": col}))
                     continue
-                f = EST.get(en, my_est)
+                f = EST.get(en) or {'my_est': my_est, 'my_est2': my_est2, 'my_est3': my_est3}[en]
                 for j in range(len(tcol)):
                     want = f(np.asarray(T[key][j]))
                     got = T[col][j]
